@@ -118,7 +118,10 @@ def run(ctx):
                 exp_m = c["methods"] > eff["max_methods"]
                 exp_l = c["loc"] > eff["max_loc"]
                 ctx.nontrivial([lang, max(-3, min(3, c["methods"] - eff["max_methods"])), max(-3, min(3, c["loc"] - eff["max_loc"])), bool(kw_exact), lang in case["over"]])
-                got = by_name.get(c["name"], [])
+                got = [g for g in by_name.get(c["name"], []) if g[0] == c["line"] or sum(1 for c2 in fx if c2["name"] == c["name"]) == 1]
+                stray = [g for g in by_name.get(c["name"], []) if all(g[0] != c2["line"] for c2 in fx if c2["name"] == c["name"])]
+                if stray and sum(1 for c2 in fx if c2["name"] == c["name"]) > 1:
+                    ctx.discrepancy("wrong-line:%s" % lang, "case %d %s: %s reported at line(s) %r, declared at %r" % (case["idx"], f, c["name"], [g[0] for g in stray], [c2["line"] for c2 in fx if c2["name"] == c["name"]]), rep, files)
                 where = "case %d %s class %s (methods %d/max %d, loc %d/max %d, keyword %s)" % (
                     case["idx"], f, c["name"], c["methods"], eff["max_methods"], c["loc"], eff["max_loc"], kw_exact)
                 if kw_hit != kw_exact:
